@@ -14,3 +14,5 @@ var verifBoundFSModes = [5]bool{true, true, true, true, true}
 const verifBoundFSCorruptMetaOnly = false
 const verifBoundFSCommits = 2
 const verifBoundROTail = 7
+const verifBoundArchive = 2
+const verifBoundDataLossBytes = 14
